@@ -18,6 +18,9 @@ pub struct Case {
     pub rc: bool,
     pub recs: Vec<Rec>,
     pub width: Option<u8>,
+    /// Windows line endings
+    #[serde(default)]
+    pub crlf: bool,
 }
 
 pub fn case_strategy() -> BoxedStrategy<Case> {
@@ -28,9 +31,10 @@ pub fn case_strategy() -> BoxedStrategy<Case> {
                 any::<bool>(),
                 proptest::collection::vec(gen::rec_strategy(k), 1..5),
                 prop_oneof![3 => Just(None), 1 => Just(Some(7u8)), 1 => Just(Some(60u8)), 1 => (1u8..80).prop_map(Some)],
+                prop::bool::weighted(0.2),
             )
         })
-        .prop_map(|(k, rc, recs, width)| Case { k, rc, recs, width })
+        .prop_map(|(k, rc, recs, width, crlf)| Case { k, rc, recs, width, crlf })
         .boxed()
 }
 
@@ -81,6 +85,9 @@ pub fn classify(case: &Case, seqs: &[Vec<u8>], dict: &SampleDict) -> (bool, Vec<
     if k >= 33 {
         classes.push("k>=33");
         nt = true;
+    }
+    if case.crlf {
+        classes.push("crlf_line_endings");
     }
     if case.rc {
         classes.push("two_strand");
@@ -179,6 +186,9 @@ fn check_inproc(case: &Case, ctx: &Ctx) -> Outcome {
     let dir = ctx.case_dir();
     let f = dir.join("in.fa");
     cli::write_fasta_auto(&f, &seqs, case.width.map(|w| w as usize));
+    if case.crlf {
+        cli::to_crlf(&f);
+    }
     let path = cli::p(&f);
     let mut res: Result<(), String> = Ok(());
     let mut widths: Vec<&str> = vec!["u128"];
@@ -238,6 +248,9 @@ fn check_cli(case: &Case, ctx: &Ctx) -> Outcome {
     let dir = ctx.case_dir();
     let f = dir.join("smp.fa");
     cli::write_fasta_auto(&f, &seqs, case.width.map(|w| w as usize));
+    if case.crlf {
+        cli::to_crlf(&f);
+    }
     let ks = case.k.to_string();
     let mut args = vec!["build", "-o", "out", "-k", &ks, "smp.fa"];
     if !case.rc {
@@ -273,11 +286,11 @@ fn check_cli(case: &Case, ctx: &Ctx) -> Outcome {
     }
 }
 
-const RULE: &str = "generated: k over all 30 valid values (boundary-weighted), strand mode, 1-4 records from op-scripts (random ACGT/AC, N runs, copies of earlier windows with a new middle base in either orientation, self-reverse-complement arms, poly-A, forced lengths k-1..k+2/2k/2k+1, an N planted k..k+2 before the end, case masks, line widths). Non-trivial: >=1 window and (record of length k or k+1, or N within k+1 of a record end, or a k-mer with >=2 middle bases, or a self-rc k-mer, or >=2 records, or mixed case, or k>=33). Distinct by (k, strand, record strings).";
+const RULE: &str = "generated: k over all 30 valid values (boundary-weighted), strand mode, 1-4 records from op-scripts (random ACGT/AC, N runs, copies of earlier windows with a new middle base in either orientation, self-reverse-complement arms, poly-A, forced lengths k-1..k+2/2k/2k+1, an N planted k..k+2 before the end, case masks, line widths, Unix or Windows line endings). Non-trivial: >=1 window and (record of length k or k+1, or N within k+1 of a record end, or a k-mer with >=2 middle bases, or a self-rc k-mer, or >=2 records, or mixed case, or k>=33). Distinct by (k, strand, record strings).";
 
 pub fn show(case: &Case) -> serde_json::Value {
     let seqs = gen::materialise_recs(&case.recs, case.k);
-    serde_json::json!({"k": case.k, "two_strand": case.rc, "line_width": case.width,
+    serde_json::json!({"k": case.k, "two_strand": case.rc, "line_width": case.width, "crlf": case.crlf,
         "records": seqs.iter().map(|s| lossy(s)).collect::<Vec<_>>()})
 }
 
